@@ -410,8 +410,20 @@ def case_e2e(c: dict) -> dict:
     ptol = c["pRel"]
     r.close("widths-of-converged-solution", wp2.widths / wp.widths, 1.0, 5 * ptol, new=wp2.widths, returned=wp.widths)
     r.close("offsets-of-converged-solution", wp2.offsets, wp.offsets, 5 * ptol * (1 + np.abs(wp.offsets)), new=wp2.offsets)
-    r.close("temperature-profile-of-converged-solution", np.asarray(bg2.temperatureProfile) / np.asarray(res.temperatureProfile), 1.0, 5 * ptol * 0.1 + 1e-6)
-    r.close("velocity-profile-of-converged-solution", np.asarray(bg2.velocityProfile), np.asarray(res.velocityProfile), 5 * ptol * 0.1 * np.max(np.abs(res.velocityProfile)) + 1e-6)
+    # the profiles returned are those of the solution at v: their end points are the matching temperatures at v and the
+    # two phases at those temperatures (a pointwise comparison with the re-evaluation is not meaningful: the grid is
+    # re-mapped to the wall parameters of each evaluation)
+    Tprof = np.asarray(res.temperatureProfile, dtype=float)
+    r.close("temperature-profile-ends-at-Tminus/Tplus", [Tprof[0], Tprof[-1]], [Tm, Tp], 1e-12 * abs(Tp))
+    fprof = np.asarray(res.fieldProfiles, dtype=float)
+    th = m.thermodynamics
+    lowT = min(max(Tm, th.freeEnergyLow.interpolationRangeMin()), th.freeEnergyLow.interpolationRangeMax())
+    highT = min(max(Tp, th.freeEnergyHigh.interpolationRangeMin()), th.freeEnergyHigh.interpolationRangeMax())
+    fscale = 1e-9 * (np.max(np.abs(fprof)) + 1.0)
+    r.close("field-profile-starts-in-low-phase(Tminus)", fprof[0], np.asarray(th.freeEnergyLow(lowT).fieldsAtMinimum, dtype=float).reshape(-1), fscale)
+    r.close("field-profile-ends-in-high-phase(Tplus)", fprof[-1], np.asarray(th.freeEnergyHigh(highT).fieldsAtMinimum, dtype=float).reshape(-1), fscale)
+    vprof = np.asarray(res.velocityProfile, dtype=float)
+    r.true("velocity-profile-negative-and-subluminal", np.all(vprof < 0) and np.all(vprof > -1), vmin=float(vprof.min()), vmax=float(vprof.max()))
     # sign change within the absolute velocity tolerance
     lo, hi = max(v - 2 * errTol, vmin), min(v + 2 * errTol, vmax)
     (plo, *_), a1, a2 = P(lo, wp)
